@@ -255,6 +255,24 @@ func (obj *Package) Unuse(pkg *Package) {
 	}
 }
 
+// inherit makes the variable and function called name that one of the used
+// packages defines and exports visible in the package if it has no entry of
+// that name.
+func (obj *Package) inherit(name string) {
+	for _, p := range obj.Uses {
+		if _, has := obj.vars[name]; !has {
+			if vv := p.vars[name]; vv != nil && vv.Export && vv.Pkg == p {
+				obj.vars[name] = vv
+			}
+		}
+		if _, has := obj.funcs[name]; !has {
+			if fi := p.funcs[name]; fi != nil && fi.Export && fi.Pkg == p {
+				obj.funcs[name] = fi
+			}
+		}
+	}
+}
+
 // Import another package variable
 func (obj *Package) Import(pkg *Package, varName string) {
 	obj.mu.Lock()
@@ -409,9 +427,11 @@ func (obj *Package) Remove(name string) (removed bool) {
 	if _, has := obj.vars[name]; has {
 		delete(obj.vars, name)
 		removed = true
+		obj.inherit(name)
 		for _, u := range obj.Users {
 			if vv := u.vars[name]; vv != nil && vv.Pkg == obj {
 				delete(u.vars, name)
+				u.inherit(name)
 			}
 		}
 	}
@@ -529,6 +549,7 @@ func (obj *Package) Unexport(name string) {
 				u.mu.Lock()
 				if xf := u.funcs[name]; xf != nil && obj == xf.Pkg {
 					delete(u.funcs, name)
+					u.inherit(name)
 				}
 				u.mu.Unlock()
 			}
@@ -541,6 +562,7 @@ func (obj *Package) Unexport(name string) {
 				u.mu.Lock()
 				if xv := u.vars[name]; xv != nil && obj == xv.Pkg {
 					delete(u.vars, name)
+					u.inherit(name)
 				}
 				u.mu.Unlock()
 			}
@@ -555,10 +577,12 @@ func (obj *Package) Undefine(name string) {
 	obj.mu.Lock()
 	if fi := obj.funcs[name]; fi != nil {
 		delete(obj.funcs, name)
+		obj.inherit(name)
 		for _, u := range obj.Users {
 			u.mu.Lock()
 			if u.funcs[name] == fi {
 				delete(u.funcs, name)
+				u.inherit(name)
 			}
 			u.mu.Unlock()
 		}
